@@ -386,6 +386,8 @@ const char *mc_cur_api(void)
     return g_api;
 }
 
+const char *mc_last_api(void) { return g_rec ? g_rec->cur_api : ""; }
+
 int mc_cur_api_nonblocking(void) { return tl_task >= 0 ? g_tasks[tl_task].api_nb : g_api_nb; }
 
 int mc_tasks_unfinished(void)
